@@ -662,4 +662,27 @@ pub mod debug {
             }
         }
     }
+
+    /// Verification hooks: raw constructor / accessor of the DR7 and DR6 images (add-only).
+    #[cfg(feature = "verif")]
+    impl DebugControlRegister {
+        pub fn verif_from_raw(raw: usize) -> Self {
+            Self(raw)
+        }
+
+        pub fn verif_raw(&self) -> usize {
+            self.0
+        }
+    }
+
+    #[cfg(feature = "verif")]
+    impl DebugStatusRegister {
+        pub fn verif_from_raw(raw: usize) -> Self {
+            Self(raw)
+        }
+
+        pub fn verif_raw(&self) -> usize {
+            self.0
+        }
+    }
 }
